@@ -143,6 +143,7 @@ func ProfileFor(prop string) *Config {
 		cfg.Gen.RichLocalization = true
 		cfg.Gen.OrderSensitive = true
 		cfg.Gen.OldVersions = true
+		cfg.Gen.AllowWebhookAfter = true // @webhook/@legacy_extra anywhere: nothing here compares live with restored
 	case "C02x":
 		// the separate small configuration that references @webhook/@legacy_extra after waits
 		cfg.Shadow = true
